@@ -49,6 +49,16 @@ def step (s : St) (line : String) : St × String :=
       match delete s.cb k with
       | none => (s, s!"0 ## {dump s.cb} live={liveAllocs s.cb}")
       | some (e, t') => ({ s with cb := t' }, s!"1 freed={e.obj} ## {dump t'} live={liveAllocs t'}")
+  -- `delown`: the caller passes the key stored inside the object; `freeret`: what the caller's free
+  -- callback returns.  Neither is visible to the library's contract, so the model treats them as `del` / no-op.
+  | ["delown", hk] =>
+    match parseHex hk with
+    | none => (s, "bad-op")
+    | some k =>
+      match delete s.cb k with
+      | none => (s, s!"0 ## {dump s.cb} live={liveAllocs s.cb}")
+      | some (e, t') => ({ s with cb := t' }, s!"1 freed={e.obj} ## {dump t'} live={liveAllocs t'}")
+  | ["freeret", _] => (s, "ok")
   | ["walk", n] =>
     match n.toNat? with
     | none => (s, "bad-op")
